@@ -710,6 +710,7 @@ fn main() {
     let k = Counters::default();
     let per_dir = [AtomicU64::new(0), AtomicU64::new(0)];
     let via_file = AtomicU64::new(0);
+    let classes: std::sync::Mutex<BTreeMap<String, u64>> = std::sync::Mutex::new(BTreeMap::new());
     util::par_for(list.len(), |i| {
         let c = &list[i];
         run.eval(1);
@@ -742,6 +743,16 @@ fn main() {
                         }
                     }
                     for f in &fails {
+                        let key = format!(
+                            "{} R{} {}{} | {} | {}",
+                            c.dir,
+                            c.cfg.revision(),
+                            c.kind.name(),
+                            if c.via_file { " (file)" } else { "" },
+                            f.item,
+                            f.finding.unwrap_or("UNCLASSIFIED")
+                        );
+                        *classes.lock().unwrap().entry(key).or_insert(0) += 1;
                         let mut cj = c.to_json();
                         cj["item"] = json!(f.item);
                         run.fail(f.finding, cj, &format!("[{}] {}", f.item, f.detail), expected_text(&f.item));
@@ -753,6 +764,7 @@ fn main() {
             run.sample(c.to_json());
         }
     });
+    run.set("failing_items_by_class", json!(classes.into_inner().unwrap()));
     run.set("cases_direction_A", json!(per_dir[0].load(Ordering::Relaxed)));
     run.set("cases_direction_B", json!(per_dir[1].load(Ordering::Relaxed)));
     run.set("cases_through_writer_and_loader", json!(via_file.load(Ordering::Relaxed)));
